@@ -4,6 +4,7 @@ import Qv.Drv.C11
 import Qv.Drv.C03
 import Qv.Drv.C05
 import Qv.Drv.C09
+import Qv.Drv.C12
 /-! Line protocol: `<op> <json>` per line in, one JSON document per line out. -/
 open Lean
 
@@ -15,7 +16,8 @@ def handlers : List (String × (Json → Except String Json)) := [
   ("C03.overclaims", Qv.Drv.C03.overclaimsJ),
   ("C05.tree", Qv.Drv.C05.tree),
   ("C09.ptrace", Qv.Drv.C09.ptraceJ),
-  ("C09.permute", Qv.Drv.C09.permuteJ)
+  ("C09.permute", Qv.Drv.C09.permuteJ),
+  ("C12.result", Qv.Drv.C12.result)
 ]
 
 def handle (line : String) : String :=
